@@ -208,7 +208,7 @@ func (p *Parser) parseModule() (module BlockStmt) {
 				expr := p.parseExpressionSuffix(left, OpExpr, OpCall)
 				p.exprLevel--
 				module.List = append(module.List, &ExprStmt{expr})
-				if !p.prevLT && p.tt == SemicolonToken {
+				if p.tt == SemicolonToken {
 					p.next()
 				}
 			} else if p.tt == DotToken {
@@ -221,7 +221,7 @@ func (p *Parser) parseModule() (module BlockStmt) {
 				expr := p.parseExpressionSuffix(left, OpExpr, OpMember)
 				p.exprLevel--
 				module.List = append(module.List, &ExprStmt{expr})
-				if !p.prevLT && p.tt == SemicolonToken {
+				if p.tt == SemicolonToken {
 					p.next()
 				}
 			} else {
@@ -650,7 +650,7 @@ func (p *Parser) parseStmt(allowDeclaration bool) (stmt IStmt) {
 		} else {
 			// a semicolon on a next line still ends a statement that is terminated by a semicolon, e.g. do a \n ; while (b)
 			switch stmt.(type) {
-			case *VarDecl, *ExprStmt, *DoWhileStmt, *BranchStmt, *ReturnStmt, *ThrowStmt, *DebuggerStmt, *ImportStmt, *ExportStmt, *DirectivePrologueStmt:
+			case *VarDecl, *ExprStmt, *DoWhileStmt, *BranchStmt, *ReturnStmt, *ThrowStmt, *DebuggerStmt, *DirectivePrologueStmt:
 				p.next()
 			}
 		}
@@ -877,7 +877,12 @@ func (p *Parser) parseExportStmt() (exportStmt ExportStmt) {
 		return
 	}
 	if p.tt == SemicolonToken {
-		p.next()
+		// an exported function or class declaration is not terminated by a semicolon
+		_, isFunc := exportStmt.Decl.(*FuncDecl)
+		_, isClass := exportStmt.Decl.(*ClassDecl)
+		if !isFunc && !isClass {
+			p.next()
+		}
 	}
 	p.yield, p.await, p.deflt = prevYield, prevAwait, prevDeflt
 	return
